@@ -5,6 +5,20 @@ HERE = os.path.dirname(os.path.dirname(os.path.abspath(__file__)))
 ALL = ["C%02d" % i for i in range(1, 21)]
 
 CHECKS = {
+ "C04": dict(
+  category="model_checking",
+  text="Exec.tla models Emit_f as the abstract artefact the emitter writes (class body entries, signature entries with the forced "
+       "None default, add_argument keyword records), Observe_f as what CPython shows for such an artefact and Described_f as the "
+       "same observation computed from the interface; TLC checks Observe_f(Emit_f(i)) = Described_f(i) over the executable domain "
+       "x 4 emitters x 3 docstring styles. Binding: every dumped behaviour (all 1-parameter, seeded 3000 / all 2-parameter) is "
+       "emitted by the real emitter, rendered with to_code, compiled and executed in a scratch namespace; the real observation "
+       "(typing.get_type_hints + class __dict__, inspect.signature, ArgumentParser actions, parse_args with only the required "
+       "options supplied) must equal gamma(Described). The unparse->reparse stability and emitted-AST = reparsed-AST clauses are "
+       "asserted on every emission (modulo the -3 / USub(3) spelling of negative literals).",
+  design_ref="DESIGN.md section 4, C04",
+  note="The oracle for the observation is CPython itself; TLA+ supplies the enumeration and the expected observation. `required` "
+       "follows the tool's convention (required <=> type not Optional). pydantic is not installed: BaseModel is bound to object.",
+  technique="TLA+ model of emit/observe/described, TLC exhaustive, every emission executed in a real interpreter"),
  "C14": dict(
   category="model_checking",
   text="TraceIR.tla states the documented shape of the intermediate representation as nine named clauses (NameOK, DocOK, ReturnsOK, "
